@@ -134,7 +134,7 @@ def proof_gate(pid, extra_targets=()):
         if line.startswith("Axioms:"):
             cur = True; continue
         if cur:
-            m = re.match(r"^([A-Za-z_][\w\.']*)\s*:", line)
+            m = re.match(r"^([A-Za-z_][\w\.']*)\s*(:|$)", line)
             if m: axs.append(m.group(1))
             elif line and not line.startswith(" "):
                 cur = False
